@@ -254,14 +254,49 @@ def _one(i):
     discharge(ob, timeout_ms=_G["timeout_ms"])
     d = {"i": i, "result": ob.result, "backend": ob.backend, "time_s": ob.time_s, "reason": str(ob.reason)}
     if ob.result == "sat":
+        # prefer a small counter-model (short paths) for replay: re-ask with size hints, keep the first model otherwise
+        try:
+            case = ob.info.get("case")
+            if case in entries:
+                old, args = entries[case]
+                hints = _small_hints(old, args)
+                if hints:
+                    s2 = z3.Solver()
+                    s2.set("timeout", 10000)
+                    s2.add(*ob.assumptions)
+                    s2.add(z3.Not(ob.goal))
+                    s2.add(*hints)
+                    if s2.check() == z3.sat:
+                        ob.model = s2.model()
+        except Exception:
+            pass
         d["scalars"] = _scalars(ob.model)
         if contract.witness is not None and ob.info.get("case") in entries:
             try:
                 old, args = entries[ob.info["case"]]
-                d["witness"] = contract.witness(ob.model, old, args)
+                d["witness"] = contract.witness(ob.model, old, args, ob.info.get("state"))
             except Exception as e:  # best effort
                 d["witness_error"] = repr(e)
     return d
+
+
+def _small_hints(old, args):
+    out = []
+
+    def walk(v):
+        if isinstance(v, Ref) and v.cls == "Path":
+            out.append(z3.Select(old.heap["Path.pp#len"], v.term) <= 6)
+        elif isinstance(v, (list, tuple)):
+            for x in v:
+                walk(x)
+        elif isinstance(v, dict):
+            for x in v.values():
+                walk(x)
+        elif z3.is_expr(v) and v.sort() == INT:
+            out.append(z3.And(v >= -20, v <= 20))
+
+    walk(args)
+    return out
 
 
 def _discharge_all(rep, contract, timeout_ms, parallel):
